@@ -60,7 +60,7 @@ func (o *Options) ServerOptions() []string {
 	if o.PreserveGid() {
 		argstr += "g"
 	}
-	if o.PreserveDevices() {
+	if o.PreserveDevices() && o.PreserveSpecials() {
 		argstr += "D"
 	}
 	if o.PreserveMTimes() {
@@ -100,6 +100,14 @@ func (o *Options) ServerOptions() []string {
 
 	if argstr != "-" {
 		sargv = append(sargv, argstr)
+	}
+
+	// -D means --devices --specials; if only one of them is enabled, it
+	// needs to be sent in its long form.
+	if o.PreserveDevices() && !o.PreserveSpecials() {
+		sargv = append(sargv, "--devices")
+	} else if o.PreserveSpecials() && !o.PreserveDevices() {
+		sargv = append(sargv, "--specials")
 	}
 
 	// if (block_size) {
